@@ -27,6 +27,8 @@ def run(tier):
     chk.cov["replayed_transitions_sequential"] = ntr
     bc.judge(chk, tp, scripts, CLAUSES)
     bc.conformance(chk, tp, "sequential replay")
+    for sc in scripts:
+        chk.count_case([sc["id"]])
     chk.sample({"script": scripts[0]["id"], "cf": scripts[0]["cf"], "steps": scripts[0]["steps"][:12],
                 "events": bc.segment(tp, scripts[0]["id"])[:12]})
 
@@ -52,6 +54,8 @@ def run(tier):
         chk.cov["replayed_transitions_" + nm] = ntr
         bc.judge(chk, tp, scripts, CLAUSES, concurrent=True)
         bc.conformance(chk, tp, "gate-scheduled replay " + nm)
+        for sc in scripts:
+            chk.count_case([sc["id"]])
         chk.sample({"script": scripts[-1]["id"], "cf": scripts[-1]["cf"], "steps": scripts[-1]["steps"][:16]})
     system_level(chk, sd)
     chk.cov["exhaustive"] = True
